@@ -399,6 +399,6 @@ def check(F, R, tier):
 
 LEVEL_TEXT = ("Decides: refusal tests dominate bucket acquisition in all allocators, the four stride expressions of the bucket allocator agree, offset "
               "packing and unpacking use the same shift/mask derived from one constant, offsets are relative to the same base on both sides, segments are "
-              "unmapped only when empty. Necessary conditions of disjoint/aligned/in-bounds memory; the arithmetic for all layouts is not decided.")
+              "unmapped only when empty. Necessary conditions of disjoint/aligned/in-bounds memory; Also: every validation refusal test of an allocator entry point dominates every Ok exit. The arithmetic for all layouts is not decided.")
 LEVEL_NOTE = "Trusted: rustc MIR. Small structural part of the property."
 TECHNIQUE = "static analysis: symbolic equality of stride/shift expressions, check-dominates-effect rules, only-under-arm rules"
